@@ -212,6 +212,20 @@ def opSearch (op : String) (j : Json) : Option (R Json) :=
       pure (jTrips (nnTcrdist k seqs (← mat "vd") (← mat "cd") (← rat j "max_tcrdist")))
   | "trim_slice" => some do
       pure (jStr (trimSlice (← nat j "ntrim") (← nat j "ctrim") (← chars j "s")))
+  | "nn_tcrdist_spec" => some do
+      -- the specification side of C14_tcrdist_exact, evaluated by brute force
+      let k ← nat j "k"
+      let seqs ← strList j "edit_seqs"
+      let mat (key : String) : R (Nat → Nat → Rat) := do
+        let rows ← (← arr j key).mapM fun r => match r with
+          | .arr a => a.mapM ratOfJson
+          | _ => throw s!"{key}: matrix expected"
+        pure fun i k => ((rows[i]?.bind (·[k]?)).getD 0)
+      let vd ← mat "vd"; let cd ← mat "cd"; let maxT ← rat j "max_tcrdist"
+      let cand := bruteSelf (fun a b => let d := levDP a b; if d ≤ k then some d else none) seqs
+      pure (jTrips (cand.filterMap fun t =>
+        let v := vd t.1 t.2.1 + cd t.1 t.2.1
+        if v ≤ maxT then some (t.1, t.2.1, v) else none))
   | _ => none
 
 end Prs.Drv
